@@ -78,6 +78,11 @@ def _handle_literal(value: Union[str, int, float, bool]):
     return str(value)
 
 
+def _vp_constant(value: Any) -> str:
+    """Render a constant of a viral propagation clause (``null`` for a missing value)."""
+    return "null" if value is None else _handle_literal(value)
+
+
 def _format_dataset_eval(dataset: Dataset) -> str:
     def __format_component(component: Component) -> str:
         return (
@@ -249,13 +254,14 @@ class ASTString(ASTTemplate):
             clause_str = ""
             if clause.name is not None:
                 clause_str += f"{clause.name} : "
-            values_str = " and ".join([f'"{v}"' for v in clause.values])
-            clause_str += f'when {values_str} then "{clause.result}"'
+            # Clause constants keep their type: null, booleans and numbers are not quoted.
+            values_str = " and ".join([_vp_constant(v) for v in clause.values])
+            clause_str += f"when {values_str} then {_vp_constant(clause.result)}"
             clauses_strs.append(clause_str)
         if node.aggregate_clause is not None:
             clauses_strs.append(f"aggregate {node.aggregate_clause.function}")
         if node.default_value is not None:
-            clauses_strs.append(f'else "{node.default_value}"')
+            clauses_strs.append(f"else {_vp_constant(node.default_value)}")
 
         if self.pretty:
             self.vtl_script += (
